@@ -14,13 +14,13 @@ import (
 // method of package ast, or an assignment to a package-level variable.
 //
 // Plain go/ast heuristics (no type information):
-//   * the "function" is the enclosing top-level declaration (function literals inside it share
+//   - the "function" is the enclosing top-level declaration (function literals inside it share
 //     its scope table: the rules store into variables captured from the enclosing RuleFunc);
-//   * a local is FRESH when every definition of that name in the declaration initialises it with
+//   - a local is FRESH when every definition of that name in the declaration initialises it with
 //     a composite literal, &composite literal, make, new, nil, a basic literal, a function literal
 //     or nothing at all (`var x T`); parameters, receivers, range variables and everything else
 //     are DERIVED (they may alias memory owned by somebody else);
-//   * skipped as plain local writes: `x = …` for a declared x (unless it is `x = append(y, …)` with
+//   - skipped as plain local writes: `x = …` for a declared x (unless it is `x = append(y, …)` with
 //     y not fresh), and ONE selector / index step on a fresh local (`fresh.f = …`, `fresh[k] = …`);
 //     everything else is listed, with the class of its root (recv / param / local / fresh / global).
 type Store struct {
